@@ -37,7 +37,7 @@ pub struct Transcript {
 }
 
 /// one operation of the specified transcript
-enum SpecOp<B: FA, H: ElementHasher<BaseField = B>> {
+pub enum SpecOp<B: FA, H: ElementHasher<BaseField = B>> {
     New(Vec<B>),
     Reseed(H::Digest),
     Draw(usize),
@@ -66,7 +66,7 @@ fn draw_deg<B: FA, H: ElementHasher<BaseField = B>>(coin: &mut DefaultRandomCoin
 }
 
 /// replays the specified transcript on a fresh coin, producing the expected event log
-fn replay<B: FA, H: ElementHasher<BaseField = B>>(spec: &[SpecOp<B, H>]) -> Vec<Event> {
+pub fn replay<B: FA, H: ElementHasher<BaseField = B>>(spec: &[SpecOp<B, H>]) -> Vec<Event> {
     let mut out = vec![];
     let mut coin: Option<DefaultRandomCoin<H>> = None;
     for op in spec {
@@ -121,7 +121,7 @@ fn read_elems<E: FieldElement>(bytes: &[u8]) -> Option<Vec<E>> {
 }
 
 /// derives the specified transcript from the proof object and the public statement alone
-fn derive_spec<B: FA, H: ElementHasher<BaseField = B>, E: FieldElement<BaseField = B>>(
+pub fn derive_spec<B: FA, H: ElementHasher<BaseField = B>, E: FieldElement<BaseField = B>>(
     proof: &Proof,
     desc: &Arc<Desc>,
 ) -> Result<(Vec<SpecOp<B, H>>, usize), Fail> {
